@@ -25,6 +25,20 @@ func Generate(t *rapid.T, o ymodel.Opts) (*ymodel.Set, map[string]int) {
 	b.CompleteT = func(td *ymodel.Typedef) bool { return g.CompleteT[td] }
 	b.CompleteG = func(gr *ymodel.Grouping) bool { return g.CompleteG[gr] }
 	g.Fill()
+	if o.Posix {
+		// files that write posix-pattern statements import the module that defines the extension
+		any := false
+		for _, m := range g.Set.Modules {
+			if m.UsesPosix() {
+				any = true
+				m.Imports = append(m.Imports, ymodel.Import{Module: ymodel.OCExtModule, Prefix: ymodel.OCExtPrefix})
+			}
+		}
+		if any {
+			g.Set.Modules = append(g.Set.Modules, &ymodel.Module{Name: ymodel.OCExtModule, Namespace: "http://openconfig.net/yang/openconfig-ext", Prefix: ymodel.OCExtPrefix, ExtDefs: []string{"posix-pattern"}})
+			g.Labels["posix-patterns"]++
+		}
+	}
 	if !o.NoOlder && rapid.IntRange(0, 4).Draw(t, "older-revision-too") == 0 {
 		var mods []*ymodel.Module
 		for _, m := range g.Set.Modules {
